@@ -3,6 +3,7 @@ package main
 import (
 	"fmt"
 	"path/filepath"
+	"sort"
 	"strings"
 
 	"verifharness/lib"
@@ -161,6 +162,20 @@ func corrMemfs(seed uint64, tier string, replay []string, prop string, opts fsGe
 		return res
 	}
 	seen := map[string]bool{}
+	if opts.views {
+		// C11's own oracles on the implementation (views.go), on every history
+		for _, h := range hs {
+			for _, mm := range viewsOracles(h, seen) {
+				res.Mismatches = append(res.Mismatches, *mm)
+			}
+		}
+		var vs []string
+		for k, n := range viewStats {
+			vs = append(vs, fmt.Sprintf("%s=%d", k, n))
+		}
+		sort.Strings(vs)
+		res.Notes = append(res.Notes, fmt.Sprintf("C11 oracles (setter leaks, prefixed-parent twin) evaluated on %d histories; twin: %s", len(hs), strings.Join(vs, ", ")))
+	}
 	// C05's own oracle on the implementation: (a) a failed call leaves the node graph exactly as it was (RemoveAll and
 	// handle operations excepted), (b) the dumped graph satisfies the Lean predicate wfCheck after every call.
 	var wfLines []string
@@ -308,6 +323,11 @@ func searchOracles(h lib.History, impl []string, opts fsGenOpts) *lib.Mismatch {
 					History: h[:i+1], Impl: []string{impl[i]}, Index: i}
 			}
 			prevN = n
+		}
+	}
+	if opts.views {
+		if ms := viewsOracles(h, map[string]bool{}); len(ms) > 0 {
+			return ms[0]
 		}
 	}
 	// the kernel oracle runs as the administrator, on clean absolute paths, through one view
